@@ -56,7 +56,7 @@ FLAVOURS = {  # (quick, thorough)
     "C18": (["plain"], ["plain"]),
 }
 SEEDS = {  # number of scenarios (each runs schedulesPer(prop, tier) schedules): (quick, thorough)
-    "C02": (3000, 60000), "C03": (2000, 30000), "C09": (3000, 60000), "C12": (60, 600), "C13": (500, 10000),
+    "C02": (3000, 60000), "C03": (2000, 30000), "C09": (3000, 60000), "C12": (400, 6000), "C13": (8000, 150000),
     "C15": (600, 12000), "C18": (3000, 60000),
 }
 
@@ -80,7 +80,7 @@ def known_match(known, prop, key):
 def build(flavours):
     t0 = time.time()
     targets = [f for f in flavours]
-    r = subprocess.run(["make", "-C", ROOT, "-j16", "BUILD=" + BUILD] + targets, stdout=subprocess.PIPE, stderr=subprocess.STDOUT, text=True)
+    r = subprocess.run(["make", "-C", ROOT, "-j16", "BUILD=" + BUILD, "REPO=" + os.environ.get("TBFSIM_REPO", "/repo")] + targets, stdout=subprocess.PIPE, stderr=subprocess.STDOUT, text=True)
     if r.returncode != 0:
         sys.stdout.write(r.stdout[-6000:])
         print("FRAMEWORK-ERROR: build failed")
@@ -125,7 +125,14 @@ def run_batch(flavour, prop, tier, base, count, nworkers, results, crashes, fw_e
                     continue
                 # EOF: the process ended
                 rc = w.p.wait()
-                if st["seed"] is not None and rc != 0:
+                if st.get("restart") is not None:
+                    nxt = st["restart"] + w.of
+                    live.remove(w)
+                    if nxt < count and time.time() < deadline:
+                        nw = Worker(flavour, prop, tier, base, w.stripe, w.of, count, start=nxt)
+                        state[id(nw)] = {"seed": None, "n": None, "sub": None, "stage": None}
+                        live.append(nw)
+                elif st["seed"] is not None and rc != 0:
                     # died inside scenario st["n"]
                     if not any(c["seed"] == st["seed"] and c["sub"] == st["sub"] and c["flavour"] == flavour for c in crashes):
                         crashes.append({"seed": st["seed"], "sub": st["sub"] if st["sub"] is not None else 0, "stage": st["stage"] or "?", "what": "exit=%d" % rc, "flavour": flavour})
@@ -170,6 +177,8 @@ def handle_line(line, w, st, flavour, results, crashes):
         results.append(r)
     elif line.startswith("DONE "):
         st["seed"] = None
+    elif line.startswith("RESTART "):
+        st["restart"] = int(line.split()[1])
     elif line.startswith("CRASH "):
         parts = line.split(None, 4)
         crashes.append({"seed": int(parts[1]), "sub": int(parts[2]), "stage": parts[3], "what": parts[4] if len(parts) > 4 else "", "flavour": flavour})
@@ -298,8 +307,13 @@ def main():
     ap.add_argument("--replay", default=None)
     ap.add_argument("--no-minimise", action="store_true")
     ap.add_argument("--time-limit", type=float, default=0)
+    ap.add_argument("--evidence-dir", default=None)
+    ap.add_argument("--replay-dir", default=None)
     args = ap.parse_args()
     prop, tier = args.prop, args.tier
+    global EVIDENCE, REPLAYS
+    if args.evidence_dir: EVIDENCE = args.evidence_dir
+    if args.replay_dir: REPLAYS = args.replay_dir
     if tier not in ("quick", "thorough"): tier = "quick"
     if prop not in FLAVOURS:
         print("unknown property", prop); sys.exit(2)
